@@ -1,6 +1,7 @@
 (* Runs case scripts against the extracted model; same line format as the Go harness. *)
 open Model
 open Util
+open Script
 
 let handlers : (string, string list -> string) Hashtbl.t = Hashtbl.create 64
 let reg k f = Hashtbl.replace handlers k f
@@ -27,6 +28,57 @@ let () =
   reg "NR" (fun a ->
     let (op, bs) = nreg_choice (z_of_hex (List.nth a 0)) in
     dec_of_z op ^ " " ^ hex_of_bytes bs)
+
+
+(* ---- encoder / decoder scripts ---- *)
+let run_enc toks =
+  let (e, obs) = enc_run enc_zero (acts_of_toks toks) in
+  (e, List.filter_map str_of_obs obs)
+
+let last_bytes (e : enc) : bytes_res = snd (enc_bytes e)
+
+let dec_str (opts : dopt list) (bs : z list) : string =
+  let (cs, o) = decode_calls opts bs in
+  str_of_outcome o ^ " | " ^ str_of_calls cs
+
+let () =
+  reg "ENC" (fun a -> String.concat " " (snd (run_enc a)));
+  reg "DEC" (fun a ->
+    match a with
+    | h :: opts -> dec_str (opts_of_toks opts) (bytes_of_hex h)
+    | [] -> failwith "DEC");
+  reg "DVB" (fun a ->
+    let (vb, o) = decode_viewbox (bytes_of_hex (List.nth a 0)) in
+    match o with
+    | Done -> "OK " ^ f32s vb.vminx ^ " " ^ f32s vb.vminy ^ " " ^ f32s vb.vmaxx ^ " " ^ f32s vb.vmaxy
+    | _ -> str_of_outcome o);
+  (* encode a script, then decode the final bytes: observable = decoded calls *)
+  reg "ED" (fun a ->
+    let (e, _) = run_enc a in
+    match last_bytes e with
+    | BytesErr x -> "ENCERR" ^ string_of_int (eerr_code x)
+    | BytesOk b -> dec_str [] b);
+  (* transcode k times: decode -> Encoder -> Bytes -> decode ... ; prints each generation's calls *)
+  reg "TR" (fun a ->
+    match a with
+    | k :: hi :: h :: [] ->
+        let k = int_of_string k in
+        let rec go i bs acc =
+          let (cs, o) = decode_calls [] bs in
+          let acc = acc @ [str_of_outcome o ^ " | " ^ str_of_calls cs] in
+          if i = 0 || o <> Done then acc
+          else
+            let acts = (if hi = "1" then [AHiRes true] else []) in
+            (* the resolution flag must be set after Reset: Reset clears it *)
+            let acts = match cs with
+              | r :: rest -> ACall r :: acts @ List.map (fun c -> ACall c) rest
+              | [] -> acts in
+            let (e, _) = enc_run enc_zero acts in
+            (match last_bytes e with
+             | BytesErr x -> acc @ ["ENCERR" ^ string_of_int (eerr_code x)]
+             | BytesOk b -> go (i - 1) b acc) in
+        String.concat " || " (go k (bytes_of_hex h) [])
+    | _ -> failwith "TR")
 
 let () =
   let out = Buffer.create (1 lsl 16) in
